@@ -164,57 +164,44 @@ class SeriesLemma(Harness):
         env["at"] = mp.atan(xv)
 
     def claims(self, outs, ins, aux):
+        """both claim families are guarded by the region of the *specified* switch (|arg| = 1e-3), so they do not
+        depend on where the code's own cells happen to lie: a moved or one-sided threshold is caught as a
+        wrong value in the affected region"""
         y = outs[0][0][0]
         x = aux["x"]
         arg = ins[0][0]
         numeric = not isinstance(arg, Val)
-        if numeric:
-            ref = series_oracle(self.key, x, aux.get("s"), aux.get("c"), tan4=aux.get("tan4"), atan_x=aux.get("atan_x"))
-            if abs(arg) < mp.mpf("1e-3") and self.key in POLES:
-                return []
-            if abs(arg) < mp.mpf("1e-3"):
-                d = mp.mpf(DELTA.numerator) / DELTA.denominator
-                return [Claim(f"taylor_upper[{k}]", y - ref, d, "le", tol=0) for k in range(4)] + \
-                       [Claim(f"taylor_lower[{k}]", y - ref, -d, "ge", tol=0) for k in range(4)]
-            return [Claim("closed_exact", y, ref)]
-        if self._taylor_cell and self.key in POLES:
-            return []  # no finite limit, no consumer: outside the claim (stated)
-        if not self._taylor_cell:
-            ref = series_oracle(self.key, x, aux.get("s"), aux.get("c"), tan4=aux.get("tan4"), atan_x=aux.get("atan_x"))
-            return [Claim("closed_exact", y, ref)]
-        # Taylor cell: substitute the enclosure corners (pure polynomials in x) for sin/cos/atan
-        cl = []
         key = self.key
-        if key == "tan(x/4)/x":
-            yv = x / 4
-            corners = [dict(tan4=sa / cb) for sa in (sin_partial(yv, NTERMS), sin_partial(yv, NTERMS + 1))
-                       for cb in (cos_partial(yv, NTERMS), cos_partial(yv, NTERMS + 1))]
-        elif key == "4 atan(x)/x":
-            corners = [dict(atan_x=atan_partial(x, NTERMS)), dict(atan_x=atan_partial(x, NTERMS + 1))] * 2
+        if numeric:
+            eps = mp.mpf("1e-3")
+            d = mp.mpf(DELTA.numerator) / DELTA.denominator
+            ref = series_oracle(key, x, aux.get("s"), aux.get("c"), tan4=aux.get("tan4"), atan_x=aux.get("atan_x"))
+            refs = [ref] * 4
+            one = mp.mpf(1)
         else:
-            corners = [dict(s=sa, c=cb) for sa in (sin_partial(x, NTERMS), sin_partial(x, NTERMS + 1))
-                       for cb in (cos_partial(x, NTERMS), cos_partial(x, NTERMS + 1))]
-        for k, cn in enumerate(corners):
-            ref = series_oracle(key, x, cn.get("s"), cn.get("c"), tan4=cn.get("tan4"), atan_x=cn.get("atan_x"))
-            cl.append(Claim(f"taylor_upper[{k}]", y - ref, DELTA, "le", tol=0))
-            cl.append(Claim(f"taylor_lower[{k}]", y - ref, -DELTA, "ge", tol=0))
+            eps = Val(Fraction(1e-3))
+            d = DELTA
+            one = 1
+            ref = series_oracle(key, x, aux.get("s"), aux.get("c"), tan4=aux.get("tan4"), atan_x=aux.get("atan_x"))
+            if key == "tan(x/4)/x":
+                yv = x / 4
+                corners = [dict(tan4=sa / cb) for sa in (sin_partial(yv, NTERMS), sin_partial(yv, NTERMS + 1))
+                           for cb in (cos_partial(yv, NTERMS), cos_partial(yv, NTERMS + 1))]
+            elif key == "4 atan(x)/x":
+                corners = [dict(atan_x=atan_partial(x, NTERMS)), dict(atan_x=atan_partial(x, NTERMS + 1))] * 2
+            else:
+                corners = [dict(s=sa, c=cb) for sa in (sin_partial(x, NTERMS), sin_partial(x, NTERMS + 1))
+                           for cb in (cos_partial(x, NTERMS), cos_partial(x, NTERMS + 1))]
+            refs = [series_oracle(key, x, cn.get("s"), cn.get("c"), tan4=cn.get("tan4"), atan_x=cn.get("atan_x"))
+                    for cn in corners]
+        absarg = arg * arg  # compare squares: |arg| < eps  <=>  arg^2 < eps^2
+        e2 = eps * eps
+        cl = [Claim("closed_exact", y, ref, guard=(absarg, "ge", e2))]
+        if key not in POLES:
+            for k, rf in enumerate(refs):
+                cl.append(Claim(f"taylor_upper[{k}]", y - rf, d, "le", tol=0, guard=(absarg, "lt", e2)))
+                cl.append(Claim(f"taylor_lower[{k}]", y - rf, -d, "ge", tol=0, guard=(absarg, "lt", e2)))
         return cl
-
-    def cell_filter(self, cell):
-        ctx = cell.ctx
-        arg = ctx.in_vals[0][0]
-        eps = Val(Fraction(1e-3))
-        inside = z3.And(V.lt(arg, eps), V.gt(arg, -eps))
-        r_in = ctx.check(inside, timeout_ms=10000)
-        r_out = ctx.check(z3.Not(inside), timeout_ms=10000)
-        if r_in != "unsat" and r_out == "unsat":
-            self._taylor_cell = True
-        elif r_out != "unsat" and r_in == "unsat":
-            self._taylor_cell = False
-        else:
-            raise HarnessError(f"{self.name}: the branch cells do not split at |arg| = 1e-3 "
-                               f"(in: {r_in}, out: {r_out}, decisions {cell.decisions})")
-        return True
 
 
 ODD_SQUARED = {"(1 - cos(x))/x"}  # odd in x: as a function of x^2 it behaves like sqrt(u)/2, AD infinite at 0; unused
